@@ -92,8 +92,9 @@ unsafe fn ext<'a, T>(r: &'a T) -> &'static T {
 }
 
 impl NM {
-    /// notify_one semantics at one instant, with the waiter woken at once (used for forwarding)
-    fn forward(&self) -> Vec<NM> {
+    /// notify_one semantics at one instant on behalf of thread `t` (used for forwarding); the
+    /// wake-up itself is delivered by `t` afterwards
+    fn forward(&self, t: u8) -> Vec<NM> {
         let ws: Vec<usize> = (0..self.slot.len()).filter(|&i| self.slot[i] == Slot::Waiting).collect();
         if ws.is_empty() {
             let mut n = self.clone();
@@ -103,7 +104,9 @@ impl NM {
             ws.into_iter()
                 .map(|w| {
                     let mut n = self.clone();
-                    n.slot[w] = Slot::Notified(true, true);
+                    n.slot[w] = Slot::Notified(true, false);
+                    n.to_wake.push((t, w as u8));
+                    n.to_wake.sort();
                     n
                 })
                 .collect()
@@ -332,6 +335,18 @@ impl Family for NotifyFam {
                 }
             },
             NOp::DropFut => {
+                if phase == 1 {
+                    // deliver the wake-up of a notification that was passed on
+                    let mut n = m.clone();
+                    if let Some(pos) = n.to_wake.iter().position(|x| x.0 == tt) {
+                        let (_, w) = n.to_wake.remove(pos);
+                        if let Slot::Notified(k, _) = n.slot[w as usize] {
+                            n.slot[w as usize] = Slot::Notified(k, true);
+                        }
+                        return vec![MStep::Cont(n, 1)];
+                    }
+                    return vec![MStep::Done(n, NRes::Unit)];
+                }
                 let mut n = m.clone();
                 let old = n.slot[t];
                 n.slot[t] = Slot::Empty;
@@ -339,7 +354,7 @@ impl Family for NotifyFam {
                     Slot::Empty => vec![MStep::Done(n, NRes::Nothing)],
                     Slot::Notified(true, _) if !wk(W_DROP_LOSES) => {
                         // the notification is passed on
-                        n.forward().into_iter().map(|x| MStep::Done(x, NRes::Unit)).collect()
+                        n.forward(tt).into_iter().map(|x| MStep::Cont(x, 1)).collect()
                     }
                     _ => vec![MStep::Done(n, NRes::Unit)],
                 }
